@@ -379,7 +379,15 @@ def round7_rules(chk, repo):
     looks = [x for x in ast.walk(rs.node) if isinstance(x, (ast.BoolOp, ast.Call, ast.IfExp)) and "self._any_route" in norm.raw(x) and "self._routes" in norm.raw(x)]
     looks = [x for x in looks if not any(y is not x and x in list(ast.walk(y)) for y in looks)]  # outermost
     if not looks:
-        chk.analysis_error("C14.method.first: the route lookup of Resource.resolve (self._routes / self._any_route) was not found")
+        # two statements: the specific lookup has to come first
+        spec = [x for x in ast.walk(rs.node) if isinstance(x, (ast.Call, ast.Subscript)) and norm.raw(x).startswith(("self._routes.get(request.method", "self._routes[request.method"))]
+        anyr = [x for x in ast.walk(rs.node) if isinstance(x, ast.Attribute) and norm.raw(x) == "self._any_route"]
+        if not spec or not anyr:
+            chk.analysis_error("C14.method.first: the route lookup of Resource.resolve (self._routes / self._any_route) was not found")
+        elif min(x.lineno for x in spec) <= min(x.lineno for x in anyr):
+            chk.ok("C14.method.first", spec[0], "Resource.resolve(): the route registered for the request's method is looked up first, the wildcard is read afterwards")
+        else:
+            chk.violation("C14.method.first", anyr[0], K.short(K.stmt_of(anyr[0])), "self._routes.get(request.method) first", "the wildcard route is read before the route of the request's method is looked up: a `*` route registered after specific ones answers every method")
     for x in looks:
         first_any = False
         if isinstance(x, ast.BoolOp) and isinstance(x.op, ast.Or):
